@@ -29,6 +29,10 @@ func (c05) NumCases(tier string) int      { return tierN(tier, 2500, 500000) }
 func (c05) MinNontrivial(tier string) int { return tierN(tier, 400, 5000) }
 
 func (p c05) Run(c *core.Ctx) {
+	if c.Index%5 == 4 {
+		p.retry(c)
+		return
+	}
 	sc := RandomGraph(c.Rng, GraphOpts{MinN: 3, MaxN: 14, Types: world.TypesAll, PCycle: 0.4, Chords: 2,
 		ByTypeSlice: 0.2, QualSlice: 0.15, ByTypeUniq: 0.2, PUnnamed: 0.3})
 	cfg := "lc:\n  s: hello\n  i: 42\n  l: [x, y, z]\n  sub:\n    s: nested\n"
@@ -377,4 +381,141 @@ func checkLifePPs(r *world.Run, names []string) []string {
 		}
 	}
 	return out
+}
+
+// retry: service-locator lookups from inside Init (errors swallowed) and transient failures. A creation
+// that failed and is attempted again legitimately runs its callbacks again; what must hold is that
+// every attempt is a prefix of before < aps < init < after in that order, that only the last attempt
+// of a component is complete, that a complete attempt happens at most once, and that nothing nests a
+// second attempt of a component inside a running one.
+func (p c05) retry(c *core.Ctx) {
+	sc := RandomGraph(c.Rng, GraphOpts{MinN: 2, MaxN: 9, Types: world.TypesAll, PCycle: 0.5, Chords: 2, ByTypeSlice: 0.15, PUnnamed: 0.3})
+	nl := AddInitLookups(c.Rng, sc, 0.5)
+	faults := 0
+	for i := range sc.Nodes {
+		ti := world.Palette[sc.Nodes[i].Type]
+		if c.Rng.Intn(4) == 0 && (ti.Init || ti.Aps) {
+			kind := "init"
+			if !ti.Init || (ti.Aps && c.Rng.Intn(2) == 0) {
+				kind = "aps"
+			}
+			sc.Nodes[i].FailOnce = append(sc.Nodes[i].FailOnce, kind)
+			faults++
+		}
+	}
+	r := world.Start(sc, world.Options{})
+	c.Count("starts", 1)
+	c.Count("retry_family_starts", 1)
+	c.Count("init_lookups", nl)
+	c.Count("transient_faults", faults)
+	if abnormal(r.Outcome()) {
+		c.Fail("", "start with swallowed lookups / transient faults: "+core.Short(r.OutcomeDetail(), 300), failDetail(sc, r, nil))
+		return
+	}
+	// after the start, look every component up repeatedly: every transient fault is consumed by one failing
+	// attempt, so after at most faults+1 rounds everything can be created
+	lastErr := map[string]error{}
+	if r.Tracer != nil {
+		r.Tracer.ResetBudget(400000)
+	}
+	for round := 0; round < faults+2; round++ {
+		for i := range sc.Nodes {
+			name := sc.Nodes[i].DisplayName()
+			var err error
+			r.Guard(func() { _, err = r.App.GetComponentByName(name) })
+			if r.Panic != nil || r.Diverge != nil {
+				c.Fail("", "lookup after the start: "+r.OutcomeDetail(), failDetail(sc, r, nil))
+				return
+			}
+			lastErr[name] = err
+		}
+	}
+	ev := r.Log.Events()
+	type attempt struct{ kinds []string }
+	attempts := map[string][]*attempt{}
+	open := map[string]bool{}
+	var problems []string
+	for _, e := range ev {
+		if _, isNode := nodeNamed(sc, e.Who); !isNode {
+			continue
+		}
+		switch e.Kind {
+		case "before":
+			if e.By != "" {
+				continue
+			}
+			attempts[e.Who] = append(attempts[e.Who], &attempt{kinds: []string{"before"}})
+			open[e.Who] = true
+		case "aps", "init":
+			if as := attempts[e.Who]; len(as) > 0 {
+				as[len(as)-1].kinds = append(as[len(as)-1].kinds, e.Kind)
+			} else {
+				problems = append(problems, fmt.Sprintf("component %q: %s without a preceding before-initialization callback", e.Who, e.Kind))
+			}
+		case "after":
+			if e.By != "" {
+				continue
+			}
+			if as := attempts[e.Who]; len(as) > 0 {
+				as[len(as)-1].kinds = append(as[len(as)-1].kinds, "after")
+			}
+			open[e.Who] = false
+		}
+	}
+	for i := range sc.Nodes {
+		name := sc.Nodes[i].DisplayName()
+		ti := world.Palette[sc.Nodes[i].Type]
+		full := []string{"before"}
+		if ti.Aps {
+			full = append(full, "aps")
+		}
+		if ti.Init {
+			full = append(full, "init")
+		}
+		full = append(full, "after")
+		as := attempts[name]
+		complete := 0
+		for k, a := range as {
+			// every attempt is a prefix of the full sequence
+			for x, kind := range a.kinds {
+				if x >= len(full) || full[x] != kind {
+					problems = append(problems, fmt.Sprintf("component %q attempt %d: callbacks %v are not a prefix of %v", name, k+1, a.kinds, full))
+					break
+				}
+			}
+			if len(a.kinds) == len(full) {
+				complete++
+				if k != len(as)-1 {
+					problems = append(problems, fmt.Sprintf("component %q: attempt %d of %d is complete but another attempt follows (initialised more than once)", name, k+1, len(as)))
+				}
+			}
+		}
+		if complete > 1 {
+			problems = append(problems, fmt.Sprintf("component %q went through its complete lifecycle %d times", name, complete))
+		}
+		if lastErr[name] == nil && complete == 0 {
+			problems = append(problems, fmt.Sprintf("component %q is returned by the container without error but no attempt ran its complete lifecycle %v (attempts: %d)", name, full, len(as)))
+		}
+		if false {
+			problems = append(problems, fmt.Sprintf("component %q was looked up successfully in the end but no attempt ran its complete lifecycle %v (attempts: %d, last: %v)", name, full, len(as), as[len(as)-1].kinds))
+		}
+		if len(as) > 1+len(sc.Nodes[i].FailOnce)+8 {
+			problems = append(problems, fmt.Sprintf("component %q: %d creation attempts", name, len(as)))
+		}
+	}
+	// registry view: no nested second creation of a name in creation
+	vs, _ := checkProtocol(r.Tracer.Events())
+	for _, v := range vs {
+		if strings.Contains(v, "nested creation") {
+			problems = append(problems, v)
+		}
+	}
+	c.Count("components_checked", len(sc.Nodes))
+	if len(problems) > 0 {
+		c.Fail("", problems[0], failDetail(sc, r, map[string]any{"problems": problems, "events": renderEvents(ev, 150)}))
+		return
+	}
+	if nl > 0 && faults > 0 {
+		c.Nontrivial("retry:" + sc.GraphSig())
+	}
 }
